@@ -943,6 +943,16 @@ func (g *kGen) stmt(depth int) *kStmt {
 			was := g.protected[bnd]
 			g.protected[bnd] = true
 			bd := body()
+			if g.r.Intn(2) == 0 {
+				// the body assigns the bound (the shape of F51): the number of iterations must not change
+				g.feat["clos:range-bound-assigned-in-loop"] = true
+				asg := &kStmt{k: "set", x: bnd, e: &kExpr{k: "bin", op: "and", a: g.expr(1), b: &kExpr{k: "lit", n: 3}}}
+				if g.r.Intn(2) == 0 {
+					bd = &kStmt{k: "seq", a: asg, b: bd}
+				} else {
+					bd = &kStmt{k: "seq", a: bd, b: asg}
+				}
+			}
 			g.protected[bnd] = was
 			g.pop()
 			g.feat["clos:range-bound-variable"] = true
